@@ -99,8 +99,12 @@ class World:
     def sup(self, s: str):
         return {"*": None, "iter": (iteration.Engine,), "sql": (sql.Engine,)}[s]
 
-    def register_fn(self, name: str, pred: bool) -> None:
+    def register_fn(self, name: str, pred: bool, sup=None) -> None:
+        # an engine-restricted function exists only in the engines of the supporting family: an engine that
+        # accepts it anyway fails when it evaluates / compiles the expression, as a real one would
         for e in self.engines.values():
+            if sup is not None and not isinstance(e, sup):
+                continue
             if name not in e.functions:
                 if pred:
                     e.functions[name] = (lambda x: x != 0)
@@ -118,7 +122,7 @@ class World:
                     name = proto.FN_PY[f]
                 else:
                     name = f[2:]
-                    self.register_fn(name, False)
+                    self.register_fn(name, False, self.sup(sup))
                 return ColumnExpression.function(
                     name, *[self.expr(a) for a in args], dtype=int, supporting_engine_types=self.sup(sup)
                 )
@@ -143,7 +147,7 @@ class World:
                     name = proto.PFN_PY[f]
                 else:
                     name = f[2:]
-                    self.register_fn(name, True)
+                    self.register_fn(name, True, self.sup(sup))
                 return ColumnExpression.predicate_function(
                     name, *[self.expr(a) for a in args], supporting_engine_types=self.sup(sup)
                 )
